@@ -238,6 +238,17 @@ func c17Impl(line string) string {
 		}
 		return c17Show(target)
 	}
+	// dsn.Parse is the entry point most callers use: it picks the form by the presence of "://" and must then
+	// answer exactly like the parser of that form
+	viaWrapper := func(direct, text string, uri bool) string {
+		if strings.Contains(text, "://") != uri {
+			return direct
+		}
+		if w := parse(dsn.Parse, text); w != direct {
+			return "wrapper-differs:" + w
+		}
+		return direct
+	}
 	switch op {
 	case "table":
 		if len(args) != 0 {
@@ -272,9 +283,9 @@ func c17Impl(line string) string {
 		}
 		switch op {
 		case "psimple":
-			return parse(dsn.ParseSimple, text)
+			return viaWrapper(parse(dsn.ParseSimple, text), text, false)
 		case "puri":
-			return parse(dsn.ParseURI, text)
+			return viaWrapper(parse(dsn.ParseURI, text), text, true)
 		}
 		return parse(dsn.Parse, text)
 	case "fsimple", "rtsimple", "rturi":
@@ -286,13 +297,14 @@ func c17Impl(line string) string {
 		case "fsimple":
 			return "text " + c17hx(dsn.FormatSimple(src))
 		case "rtsimple":
-			return parse(dsn.ParseSimple, dsn.FormatSimple(src))
+			text := dsn.FormatSimple(src)
+			return viaWrapper(parse(dsn.ParseSimple, text), text, false)
 		}
 		u, err := dsn.FormatURI(src)
 		if err != nil {
 			return "ferr"
 		}
-		return parse(dsn.ParseURI, u)
+		return viaWrapper(parse(dsn.ParseURI, u), u, true)
 	case "sweep":
 		if len(args) != 2 {
 			return "bad-op"
